@@ -23,12 +23,12 @@ def make_config(prop, seed, tier):
     return {
         "seed": seed,
         "backend": r.choice(BACKENDS),
-        "steps": r.randint(10, 30) if tier == "quick" else r.randint(15, 70),
+        "steps": (r.randint(10, 30) if tier == "quick" else r.randint(15, 70)) + (10 if prop == "C06" else 0),
         "io_faults": prop == "C01" and r.random() < 0.35,
         "listing": True,
         # several store objects on one directory = several server processes
         # taking turns (no overlap): their in-memory caches go stale
-        "handles": r.choice([1, 1, 2, 3]),
+        "handles": r.choice([2, 2, 3]) if prop == "C06" else r.choice([1, 1, 2, 3]),
     }
 
 
@@ -114,6 +114,25 @@ class StoreRun:
     def gen_op(self):
         r = self.rng
         names = sorted(self.model)
+        q = getattr(self, "queue", None)
+        if q:
+            return q.pop(0)
+        nh = len(getattr(self, "handles", [1]))
+        holders = [(n, m["uid"]) for n, m in sorted(self.model.items()) if m.get("uid")]
+        if self.prop == "C06" and nh > 1 and holders and r.random() < 0.15:
+            # UID hand-over seen by another handle: handle A has scanned; handle B frees the
+            # UID (delete, or overwrite with another UID) and gives it to a new name; handle A
+            # then tries to use the same UID for a third name (must be refused)
+            n, u = r.choice(holders)
+            ha = r.randrange(nh)
+            hb = (ha + 1 + r.randrange(nh - 1)) % nh
+            self.fresh += 3
+            def imp(name, uid, h):
+                b, ct = self.body(name, uid)
+                return {"op": "import", "name": name, "body": b.decode("latin-1"), "ctype": ct, "handle": h}
+            free = {"op": "delete", "name": n, "handle": hb} if r.random() < 0.5 else imp(n, "u-freed-%d" % self.fresh, hb)
+            self.queue = [free, imp("h%d.ics" % self.fresh, u, hb), imp("h%d.ics" % (self.fresh + 1), u, ha)]
+            return imp("scan%d.ics" % self.fresh, "u-scan-%d" % self.fresh, ha)
         k = r.random()
         p = self.prop
         if k < 0.3 or not names:
@@ -187,7 +206,7 @@ class StoreRun:
             else:
                 for i in range(self.cfg["steps"]):
                     op = self.gen_op()
-                    if len(self.handles) > 1:
+                    if len(self.handles) > 1 and "handle" not in op:
                         op["handle"] = self.rng.randrange(len(self.handles))
                     if self.cfg.get("io_faults") and op["op"] in ("import", "delete") and self.rng.random() < 0.2 and self.stats.get("fault.io_error_armed", 0) < 2:
                         op["fault"] = {"after": self.rng.randint(1, 25), "errno": self.rng.choice(["ENOSPC", "EIO"])}
